@@ -148,7 +148,7 @@ def build_all(prop_file=None, verbose=False):
             if ok:
                 srcs = ["model.mli", "model.ml", "common.ml"] + sorted(
                     os.path.basename(m) for m in ml if os.path.basename(m) not in ("common.ml", "main.ml")) + ["main.ml"]
-                rc, out = sh(["ocamlfind", "ocamlopt", "-O3", "-w", "-a"] + srcs + ["-o", mr + ".new"], cwd=os.path.join(VERIF, "ocaml"), timeout=900)
+                rc, out = sh(["ocamlfind", "ocamlopt", "-package", "str", "-linkpkg", "-O3", "-w", "-a"] + srcs + ["-o", mr + ".new"], cwd=os.path.join(VERIF, "ocaml"), timeout=900)
                 if rc != 0:
                     ok = False
                     bs.coq_log += "\n[ocaml]\n" + out
